@@ -22,7 +22,7 @@ MANIFEST = {
             "dispatch of encoding classes without a class theorem, the opcode tables. Trusted: Lean kernel + bv_decide certificates; "
             "Spec/X86Decode.lean as the reading of the SDM; db/x86.js + tools/gen_c01.py (with its listed database errata); harness/driver/diff.",
 }
-MODS = ["AsmjitVerif.Props.C01", "AsmjitVerif.Props.C01Front", "AsmjitVerif.Props.C01Rows", "AsmjitVerif.Props.C01Front32", "AsmjitVerif.Props.C01Rows32", "AsmjitVerif.Props.C01FrontMem", "AsmjitVerif.Props.C01FrontMemG", "AsmjitVerif.Props.C01FrontMemV", "AsmjitVerif.Props.C01FrontMemX", "AsmjitVerif.Props.C01RowsMem", "AsmjitVerif.Props.C01FrontDec", "AsmjitVerif.Props.C01FrontMemB", "AsmjitVerif.Props.C01RowsMemB", "AsmjitVerif.Props.C01FrontLeg32", "AsmjitVerif.Props.C01FrontArith", "AsmjitVerif.Props.C01RowsArith", "AsmjitVerif.Props.C01FrontOpReg", "AsmjitVerif.Props.C01FrontLegMem", "AsmjitVerif.Props.C01RowsLegMem", "AsmjitVerif.Props.C01RowsMov", "AsmjitVerif.Props.C01FrontMr", "AsmjitVerif.Props.C01RowsMr", "AsmjitVerif.Props.C01FrontRel"]
+MODS = ["AsmjitVerif.Props.C01", "AsmjitVerif.Props.C01Front", "AsmjitVerif.Props.C01Rows", "AsmjitVerif.Props.C01Front32", "AsmjitVerif.Props.C01Rows32", "AsmjitVerif.Props.C01FrontMem", "AsmjitVerif.Props.C01FrontMemG", "AsmjitVerif.Props.C01FrontMemV", "AsmjitVerif.Props.C01FrontMemX", "AsmjitVerif.Props.C01RowsMem", "AsmjitVerif.Props.C01FrontDec", "AsmjitVerif.Props.C01FrontMemB", "AsmjitVerif.Props.C01RowsMemB", "AsmjitVerif.Props.C01FrontLeg32", "AsmjitVerif.Props.C01FrontArith", "AsmjitVerif.Props.C01RowsArith", "AsmjitVerif.Props.C01FrontOpReg", "AsmjitVerif.Props.C01FrontLegMem", "AsmjitVerif.Props.C01RowsLegMem", "AsmjitVerif.Props.C01RowsMov", "AsmjitVerif.Props.C01FrontMr", "AsmjitVerif.Props.C01RowsMr", "AsmjitVerif.Props.C01FrontRel", "AsmjitVerif.Props.C01FrontAbs"]
 BASE = c01_forms.BASE_ADDR
 
 # classes of known, not (yet) repaired findings -> stable keys (known_findings.json)
@@ -222,18 +222,20 @@ def theorem_family(ew, enc, names):
             if regs[0] == "gpq" and not -2 ** 31 <= vv < 2 ** 31:
                 return None          # `and r64, immu32` path / refused
             return "acc_imm" if acc else "arith_imm"
-        if sig == "MI" and enc == 0x19:
+        if sig == "MI":
             size = int(mems[0].split(":")[1])
             if size in (1, 2, 4, 8) and (size != 8 or -2 ** 31 <= s64(imms[0]) < 2 ** 31):
-                return "arith_mi_" + af
+                return ("arith_mi_" if enc == 0x19 else "test_mi_") + af
         return None
     if enc == 0x37:
         if sig == "RI" and regs[0] in GP:
             return "rot_1" if imms[0] & 0xFF == 1 else "rot_imm"
         if sig == "RR" and regs[0] in GP and ops[1] == "R:gpb:1":
             return "rot_cl"
-        if sig == "MI" and imms[0] & 0xFF != 1 and int(mems[0].split(":")[1]) in (1, 2, 4, 8):
-            return "rot_mi_" + af
+        if sig == "MI" and int(mems[0].split(":")[1]) in (1, 2, 4, 8):
+            return ("rot_mi_" if imms[0] & 0xFF != 1 else "rot_m1_") + af
+        if sig == "MR" and ops[1] == "R:gpb:1" and int(mems[0].split(":")[1]) in (1, 2, 4, 8):
+            return "rot_mcl_" + af
         return None
     if enc in (0x33, 0x35) and sig == "R" and regs[0] in ("gpw", "gpq"):
         return "pushpop_reg"
